@@ -14,3 +14,8 @@ func raceRelease(p unsafe.Pointer) { runtime.RaceReleaseMerge(p) }
 func raceAcquire(p unsafe.Pointer) { runtime.RaceAcquire(p) }
 
 const RaceEnabled = true
+
+// RaceRelease / RaceAcquire let shims announce happens-before edges that the real primitive
+// guarantees but the shim's deterministic replacement does not perform (sync.Pool Put -> Get).
+func RaceRelease(p unsafe.Pointer) { runtime.RaceReleaseMerge(p) }
+func RaceAcquire(p unsafe.Pointer) { runtime.RaceAcquire(p) }
